@@ -202,4 +202,11 @@ open C10Example in
 /-- Every URI fails: nothing is used. -/
 example : (selectTa 100 (some view) ⟨7, [1, 2, 3]⟩ [1, 2, 3] store).1 = none := by decide
 
+open C10Example in
+/-- The TAL's key has changed since the copy was stored (the store is keyed by URI only): with
+nothing to download, the stored certificate — valid, but for the old key — is not used. -/
+example :
+    (selectTa 100 (some ⟨[], []⟩) ⟨6, [2]⟩ [2] store).1 = none
+    ∧ (selectTa 100 (some ⟨[], []⟩) ⟨0, [2]⟩ [2] store).1 = some good := by decide
+
 end RoutinatorModel
